@@ -207,6 +207,9 @@ func (s *simscreen) drawCell(x, y int) int {
 
 			// skip combining
 
+			if len(simc.Bytes) != 0 {
+				continue
+			}
 			if subst, ok := s.fallback[r]; ok {
 				simc.Bytes = append(simc.Bytes,
 					[]byte(subst)...)
